@@ -1,4 +1,6 @@
 import CvModel.Scalar
 import CvModel.Value
 import CvModel.Grid
+import CvModel.Engine
 import CvModel.MemStream
+import CvModel.FileSys
